@@ -12,14 +12,17 @@ import DateutilVerif.Proofs.IsoRender
 import DateutilVerif.Proofs.IsoDatetime
 import DateutilVerif.Proofs.IsoGenEq
 import DateutilVerif.Proofs.IsoGenLoop
+import DateutilVerif.Proofs.IsoReview
 namespace C07
 open Iso IsoSpec Cal
 
-/-- THE INVERSE LAW (full strength): for every form, every well-formed field assignment, every
-    non-digit separator byte, with the default parser (`cfg = none`) or the parser configured
-    with that separator, parsing the rendering returns exactly the denoted datetime. -/
+/-- THE INVERSE LAW (full strength): for every form, every well-formed field assignment, EVERY
+    separator byte — a digit only being excluded after a basic ordinal date `YYYYDDD`, the one
+    date form whose rendering a following digit makes ambiguous (`2014059112` reads as the calendar
+    date 2014-05-91) — with the default parser (`cfg = none`) or the parser configured with that
+    separator, parsing the rendering returns exactly the denoted datetime. -/
 theorem isoparse_render (f : IsoForm) (x : Fields) (cfg : Option Nat)
-    (hw : WFields f x) (hsep : f.time ≠ .none → isDigit f.sep = false)
+    (hw : WFields f x) (hsep : f.time ≠ .none → f.date = .ordBas → isDigit f.sep = false)
     (hcfg : cfg = none ∨ cfg = some f.sep) :
     isoparse cfg (render f x) = .ok (denote f x) :=
   isoparse_render_core f x cfg hw hsep hcfg
@@ -34,16 +37,16 @@ theorem isoparse_render_entry (f : IsoForm) (x : Fields) (hw : WFields f x)
     simp [mkSep, hsep]; omega
   constructor
   · simp only [isoparseFull, h1, bind, Except.bind, asciiGate]
-    simp [isoparse_render_core f x (some f.sep) hw (fun _ => hsep) (Or.inr rfl)]
+    simp [isoparse_render_core f x (some f.sep) hw (fun _ _ => hsep) (Or.inr rfl)]
   · simp only [isoparseFull, mkSep, bind, Except.bind, asciiGate]
-    simp [isoparse_render_core f x none hw (fun _ => hsep) (Or.inl rfl)]
+    simp [isoparse_render_core f x none hw (fun _ _ => hsep) (Or.inl rfl)]
 
 /-- `parse_isodate` inverts every date form (complete or not) -/
 theorem parse_isodate_render (df : DateForm) (x : Fields) (hwf : dateWF true df x = true)
     (hr : dateOrdinal df x ≤ maxOrdinal) :
     parseIsodateEntry (renderDate df x) = .ok (fromOrdinal (dateOrdinal df x)) := by
   have hp := dateOrdinal_pos df x hwf
-  have h := parseIsodate_render df x [] hwf hp hr (Or.inl rfl) (Or.inr rfl)
+  have h := parseIsodate_render df x [] hwf hp hr (fun _ => Or.inl rfl) (Or.inr rfl)
   rw [List.append_nil] at h
   have hv := fromOrdinal_valid _ hp hr
   have : validDate (fromOrdinal (dateOrdinal df x)).1 (fromOrdinal (dateOrdinal df x)).2.1
@@ -120,7 +123,7 @@ theorem ordinaldate_inverts_yday (y m d : Int) (hv : ValidYMD y m d) :
 theorem isoparse_inverts_datetime (t : DT) (ht : t.Valid) (df : DateForm) (hc : df.complete = true)
     (tf : TimeForm) (htf : tf ≠ .none) (frac : List Nat)
     (hfrac : tf.hasFrac = true → frac ≠ [] ∧ ∀ d ∈ frac, d ≤ 9)
-    (o : OffForm) (xo : Fields) (how : offWF o xo = true) (sep : Nat) (hsep : isDigit sep = false)
+    (o : OffForm) (xo : Fields) (how : offWF o xo = true) (sep : Nat) (hsep : df = .ordBas → isDigit sep = false)
     (cfg : Option Nat) (hcfg : cfg = none ∨ cfg = some sep) :
     isoparse cfg (render ⟨df, tf, o, sep⟩ (dtFields df t frac xo)) =
       .ok ⟨truncDT tf frac t, offDenote o xo⟩ :=
@@ -153,7 +156,7 @@ theorem parse_tzstr_render_gen (o : OffForm) (x : Fields) (v : Off) (hw : offWF 
     start with a digit: it returns the denoted date as components and the length of the rendering as position -/
 theorem parse_isodate_scan_render_gen (df : DateForm) (x : Fields) (t : Iso.Bytes)
     (hwf : dateWF true df x = true) (hr : dateOrdinal df x ≤ maxOrdinal)
-    (ht : TailOK t) (hc : df.complete = true ∨ t = []) :
+    (ht : df = .ordBas → TailOK t) (hc : df.complete = true ∨ t = []) :
     Gen.parseIsodate (renderDate df x ++ t) =
       .ok ([.int (fromOrdinal (dateOrdinal df x)).1, .int (fromOrdinal (dateOrdinal df x)).2.1,
             .int (fromOrdinal (dateOrdinal df x)).2.2], ((renderDate df x).length : Int)) := by
@@ -163,7 +166,7 @@ theorem parse_isodate_scan_render_gen (df : DateForm) (x : Fields) (t : Iso.Byte
 /-- THE INVERSE LAW for the TRANSLATED `isoparse` (`Gen.isoparse`, re-translated from isoparser.py on every run):
     every form, every well-formed field assignment, default or configured separator -/
 theorem isoparse_render_gen (f : IsoForm) (x : Fields) (cfg : Option Nat)
-    (hw : WFields f x) (hsep : f.time ≠ .none → isDigit f.sep = false)
+    (hw : WFields f x) (hsep : f.time ≠ .none → f.date = .ordBas → isDigit f.sep = false)
     (hcfg : cfg = none ∨ cfg = some f.sep) :
     Gen.isoparse (cfg.map fun c => [c]) (render f x) = .ok (denote f x) := by
   rw [IsoGen.isoparse_eq]; exact isoparse_render_core f x cfg hw hsep hcfg
@@ -172,7 +175,7 @@ theorem isoparse_render_gen (f : IsoForm) (x : Fields) (cfg : Option Nat)
 theorem isoparse_inverts_datetime_gen (t : DT) (ht : t.Valid) (df : DateForm) (hc : df.complete = true)
     (tf : TimeForm) (htf : tf ≠ .none) (frac : List Nat)
     (hfrac : tf.hasFrac = true → frac ≠ [] ∧ ∀ d ∈ frac, d ≤ 9)
-    (o : OffForm) (xo : Fields) (how : offWF o xo = true) (sep : Nat) (hsep : isDigit sep = false)
+    (o : OffForm) (xo : Fields) (how : offWF o xo = true) (sep : Nat) (hsep : df = .ordBas → isDigit sep = false)
     (cfg : Option Nat) (hcfg : cfg = none ∨ cfg = some sep) :
     Gen.isoparse (cfg.map fun c => [c]) (render ⟨df, tf, o, sep⟩ (dtFields df t frac xo)) =
       .ok ⟨truncDT tf frac t, offDenote o xo⟩ := by
@@ -206,6 +209,47 @@ theorem parse_isotime_render_gen (tf : TimeForm) (o : OffForm) (x : Fields) (htf
           tz := offDenote o x }) := by
   rw [IsoGen.parseIsotimeEntry_eq, parse_isotime_render tf o x htf hw ho]; rfl
 
+/-- `_parse_tzstr` (model and translated) inverts every offset form for BOTH values of `zero_as_utc`: with
+    `zero_as_utc=False` a zero numeric offset stays `tzoffset(None, 0)`, `Z`/`z` are UTC in either mode -/
+theorem parse_tzstr_render_any_mode (o : OffForm) (x : Fields) (z : Bool) (ho : o ≠ .naive) (hw : offWF o x = true) :
+    parseTzstr (renderOff o x) z = .ok (offValue z o x) ∧
+    Gen.parseTzstrEntry (renderOff o x) z = .ok (offValue z o x) := by
+  have h := parseTzstr_render_z o x z ho hw
+  exact ⟨h, by rw [IsoGen.parseTzstrEntry_eq]; exact h⟩
+
+/-- the datetime-level law with the fraction digits TIED to the microsecond of `t`: the first `k ≤ 6` digits of
+    `t.us` are rendered, parsing returns `t` with the microsecond truncated to a multiple of `10^(6-k)` -/
+theorem isoparse_inverts_datetime_us (t : DT) (ht : t.Valid) (df : DateForm) (hc : df.complete = true)
+    (tf : TimeForm) (htf : tf ≠ .none) (k : Nat) (h1 : 1 ≤ k) (h6 : k ≤ 6)
+    (o : OffForm) (xo : Fields) (how : offWF o xo = true) (sep : Nat) (hsep : df = .ordBas → isDigit sep = false)
+    (cfg : Option Nat) (hcfg : cfg = none ∨ cfg = some sep) :
+    isoparse cfg (render ⟨df, tf, o, sep⟩ (dtFields df t ((digits6 t.us.toNat).take k) xo)) =
+      .ok ⟨truncDTk tf k t, offDenote o xo⟩ ∧
+    Gen.isoparse (cfg.map fun c => [c]) (render ⟨df, tf, o, sep⟩ (dtFields df t ((digits6 t.us.toNat).take k) xo)) =
+      .ok ⟨truncDTk tf k t, offDenote o xo⟩ := by
+  have h := Iso.isoparse_inverts_datetime_us t ht df hc tf htf k h1 h6 o xo how sep hsep cfg hcfg
+  exact ⟨h, by rw [IsoGen.isoparse_eq]; exact h⟩
+
+/-- … and with all six digits of `t.us` (followed by any further digits) the datetime comes back EXACTLY -/
+theorem isoparse_inverts_datetime_exact (t : DT) (ht : t.Valid) (df : DateForm) (hc : df.complete = true)
+    (tf : TimeForm) (htf : tf.hasFrac = true) (extra : List Nat) (hex : ∀ d ∈ extra, d ≤ 9)
+    (o : OffForm) (xo : Fields) (how : offWF o xo = true) (sep : Nat) (hsep : df = .ordBas → isDigit sep = false)
+    (cfg : Option Nat) (hcfg : cfg = none ∨ cfg = some sep) :
+    isoparse cfg (render ⟨df, tf, o, sep⟩ (dtFields df t (digits6 t.us.toNat ++ extra) xo)) = .ok ⟨t, offDenote o xo⟩ ∧
+    Gen.isoparse (cfg.map fun c => [c]) (render ⟨df, tf, o, sep⟩ (dtFields df t (digits6 t.us.toNat ++ extra) xo)) =
+      .ok ⟨t, offDenote o xo⟩ := by
+  have h := Iso.isoparse_inverts_datetime_exact t ht df hc tf htf extra hex o xo how sep hsep cfg hcfg
+  exact ⟨h, by rw [IsoGen.isoparse_eq]; exact h⟩
+
+/-- a date alone: every valid date, every complete date form fed with the date's own fields -/
+theorem isoparse_inverts_date (y m d : Int) (hv : ValidDate y m d) (df : DateForm) (hc : df.complete = true)
+    (cfg : Option Nat) :
+    isoparse cfg (render ⟨df, .none, .naive, 84⟩ (dateFieldsOf df y m d)) = .ok ⟨{ y, m, d }, none⟩ ∧
+    Gen.isoparse (cfg.map fun c => [c]) (render ⟨df, .none, .naive, 84⟩ (dateFieldsOf df y m d)) =
+      .ok ⟨{ y, m, d }, none⟩ := by
+  have h := Iso.isoparse_inverts_date y m d hv df hc cfg
+  exact ⟨h, by rw [IsoGen.isoparse_eq]; exact h⟩
+
 /-- str, bytes and stream inputs are equivalent: for ASCII text every `@_takes_ascii` entry point computes the
     same result whichever way the text arrives (model of `_takes_ascii`; the decorator itself is hand-modelled) -/
 theorem input_kinds_equivalent {α} (f : Iso.Bytes → Py.R α) (t : List Nat) (h : ∀ c ∈ t, c < 128) :
@@ -214,6 +258,15 @@ theorem input_kinds_equivalent {α} (f : Iso.Bytes → Py.R α) (t : List Nat) (
   have : t.any (fun c => decide (c ≥ 128)) = false := by
     rw [List.any_eq_false]; intro c hc; have := h c hc; simp; omega
   simp [takesAscii, this]
+
+/-- the same about the TRANSLATED `_takes_ascii` (`Gen.takesAscii`, re-translated from isoparser.py on every run; the
+    only trusted part is the primitive `readAll`: a stream delivers everything from its current position) -/
+theorem input_kinds_equivalent_gen {α} (f : Iso.Bytes → Py.R α) (t : List Nat) (h : ∀ c ∈ t, c < 128) :
+    Gen.takesAscii f (.str t) = f t ∧ Gen.takesAscii f (.bytes t) = f t ∧
+    Gen.takesAscii f (.streamStr t) = f t ∧ Gen.takesAscii f (.streamBytes t) = f t := by
+  obtain ⟨h1, h2, h3, h4⟩ := input_kinds_equivalent f t h
+  exact ⟨by rw [← h1]; exact IsoGen.takesAscii_eq f (.str t), by rw [← h2]; exact IsoGen.takesAscii_eq f (.bytes t),
+    by rw [← h3]; exact IsoGen.takesAscii_eq f (.streamStr t), by rw [← h4]; exact IsoGen.takesAscii_eq f (.streamBytes t)⟩
 
 /-! non-vacuity: concrete forms with well-formed fields -/
 example : WFields ⟨.weekExtD, .hmsfExt false, .hhcmm, 84⟩
